@@ -73,6 +73,8 @@ type c13Spec struct {
 	// Case: the alphabet {%,_,a,A,.}: patterns and texts that differ only in the case of a letter, all evaluated in
 	// one process in sequence (the rewriting caches are process-wide)
 	Case bool `json:"letter_case,omitempty"`
+	// Nested: the LIKE operand is the nested path d.s (every row carries its text there as well)
+	Nested bool `json:"nested_operand,omitempty"`
 }
 
 func (c13) Plan(tier string) []fw.Unit {
@@ -93,6 +95,11 @@ func (c13) Plan(tier string) []fw.Unit {
 	}
 	for _, ctx := range c13Contexts {
 		us = append(us, fw.Unit{Check: "C13", Kind: "like", Tier: tier, Spec: fw.Spec(c13Spec{Ctx: ctx, Shard: 0, Shards: 1, MaxLen: 3, Case: true})})
+	}
+	for _, ctx := range []string{"where", "case", "select"} {
+		for s := 0; s < 2; s++ {
+			us = append(us, fw.Unit{Check: "C13", Kind: "like", Tier: tier, Spec: fw.Spec(c13Spec{Ctx: ctx, Shard: s, Shards: 2, MaxLen: 3, Nested: true})})
+		}
 	}
 	us = append(us, fw.Unit{Check: "C13", Kind: "null", Tier: tier, Spec: fw.Spec(c13Spec{})})
 	return us
@@ -136,16 +143,19 @@ func (c13) Run(u fw.Unit) fw.Result {
 	strs := c13Strings(sp.MaxLen)
 	rows := make([]Row, len(strs))
 	for i, t := range strs {
-		rows[i] = Row{"s": t, "id": i}
+		rows[i] = Row{"s": t, "id": i, "d": map[string]any{"s": t, "x": "other"}}
 	}
 	// two more rows without a text: s NULL and s missing - no pattern matches them (a NULL answer counts as not true)
 	nText := len(strs)
-	rows = append(rows, Row{"s": nil, "id": nText}, Row{"id": nText + 1})
+	rows = append(rows, Row{"s": nil, "id": nText, "d": map[string]any{"s": nil}}, Row{"id": nText + 1})
 	for pi, p := range strs {
 		if pi%sp.Shards != sp.Shard {
 			continue
 		}
 		sql := c13SQL(sp.Ctx, p)
+		if sp.Nested {
+			sql = strings.Replace(sql, "s LIKE", "d.s LIKE", 1)
+		}
 		decisions := make([]int, len(rows)) // 1 true, 0 false, -1 unknown
 		if sp.Ctx == "having" {
 			r := detExec(sql, detOpts{Eager: true}, func(e *Env) {
